@@ -48,7 +48,7 @@ Definition table : list matched := [
   {| m_site := {| s_file := conv; s_func := "MetamathConverter"; s_kind := "call:sorted:set";
                   s_expr := "{_ for _ in _.args if _.is_metavar(_)}" |};
      m_model := "Det.Converter.sort_str"; m_statement := S_sorted; m_proof := sorted_perm_invariant |};
-  {| m_site := {| s_file := "metamath/translate.py"; s_func := "main"; s_kind := "for:fs";
+  {| m_site := {| s_file := "metamath/translate.py"; s_func := "<module>"; s_kind := "for:fs";
                   s_expr := "_.glob('*.mm') | body uses: unlink" |};
      m_model := "Det.Converter.unlink_all"; m_statement := S_unlink; m_proof := unlink_all_perm |};
   (* consumers of the attribute that carries the set-ordered tuple *)
